@@ -8,6 +8,10 @@ import (
 	"strconv"
 	"time"
 
+	"github.com/boz/kcache"
+	"github.com/boz/kcache/filter"
+	"github.com/boz/kcache/nsname"
+
 	"verifharness/kit"
 )
 
@@ -405,6 +409,108 @@ func e7LateFilterCase(seed uint64, n int) Case {
 	}}
 }
 
+// e7CallerSliceCase: the caller builds NSName filters from ONE slice it keeps,
+// edits and re-uses (spread form).  A filter, once handed over, is the filter of
+// the ids it was built from: whatever the caller does to its slice afterwards,
+// the node keeps mirroring THAT selection of its parent while parent events flow.
+func e7CallerSliceCase(seed uint64, n int) Case {
+	id := fmt.Sprintf("E7/filter-built-from-callers-slice/%d/%d", seed, n)
+	return Case{ID: id, Desc: map[string]interface{}{"seed": seed, "n": n, "what": "NSName(ids...) from a slice the caller keeps editing while parent events flow"}, Bubble: true, Run: func(r *Res) {
+		rng := kit.NewRng(kit.Mix(seed, uint64(n)+7700))
+		core := kit.NewCore(&kit.Plan{Seed: rng.U64(), PYield: 100})
+		g := newRootRig(core, nil)
+		defer g.stop(r, "C12")
+		g.root.MakeReady()
+		keys := [][2]string{{"a", "x1"}, {"a", "x2"}, {"b", "y1"}, {"b", "y2"}, {"c", "z1"}, {"c", "x1"}}
+		ver := 0
+		churn := func() bool {
+			for _, k := range keys {
+				ver++
+				typ := kcache.EventTypeUpdate
+				if ver <= len(keys) {
+					typ = kcache.EventTypeCreate
+				}
+				if _, err := g.apply(typ, kit.Pod(k[0], k[1], strconv.Itoa(ver), nil)); err != nil {
+					r.V("C06", "publish-error", "%v", err)
+					return false
+				}
+			}
+			g.barrier()
+			return true
+		}
+		if !churn() {
+			return
+		}
+		layouts := [][]nsname.NSName{
+			{nsname.New("a", "x1"), nsname.New("b", "")},
+			{nsname.New("b", ""), nsname.New("a", "x1")},
+			{nsname.New("a", "x1"), nsname.New("", "z1"), nsname.New("b", "y2"), nsname.New("c", "")},
+			{nsname.New("", "x1"), nsname.New("a", "x2"), nsname.New("b", "")},
+			{nsname.New("a", "x2"), nsname.New("c", "z1"), nsname.New("b", "")},
+		}
+		ids := append([]nsname.NSName(nil), layouts[n%len(layouts)]...)
+		cur := kit.TNSName(append([]nsname.NSName(nil), ids...)...) // the reference keeps its own copy
+		var cc kcache.CacheReader
+		var refilt func(filter.Filter) error
+		var closer func()
+		if n%2 == 0 {
+			sub, err := g.root.Publisher().SubscribeWithFilter(filter.NSName(ids...))
+			if err != nil {
+				r.V("C06", "tree-build-error", "%v", err)
+				return
+			}
+			go func() {
+				for range sub.Events() {
+				}
+			}()
+			cc, refilt, closer = sub.Cache(), sub.Refilter, sub.Close
+		} else {
+			cl, err := g.root.Publisher().CloneWithFilter(filter.NSName(ids...))
+			if err != nil {
+				r.V("C06", "tree-build-error", "%v", err)
+				return
+			}
+			cc, refilt, closer = cl.Cache(), cl.Refilter, cl.Close
+		}
+		defer closer()
+		g.barrier()
+		check := func(what string) bool {
+			pl, _ := g.root.Cache().List()
+			want := cur.Accepted(pl)
+			got, _ := cacheSnap(cc)
+			r.Add("caller-slice-mirror-checks", 1)
+			if !got.Equal(want) {
+				r.V("C06", "filtered-cache-mismatch", "%s: the node was given NSName(%s); its cache is %v, that filter applied to the parent's cache gives %v (the caller's slice is now %v)", what, cur, got, want, ids)
+				return false
+			}
+			return true
+		}
+		if !check("after creation") || !churn() || !check("parent events after creation") {
+			return
+		}
+		for round := 0; round < 4; round++ {
+			// the caller edits its slice; the node's filter is still the one it was given
+			i := rng.Intn(len(ids))
+			ids[i] = []nsname.NSName{nsname.New("c", ""), nsname.New("a", "x2"), nsname.New("", "y1"), nsname.New("a", "")}[rng.Intn(4)]
+			if !churn() || !check(fmt.Sprintf("round %d: caller edited ids[%d], no Refilter yet, parent events", round, i)) {
+				return
+			}
+			f := filter.NSName(ids...)
+			cur = kit.TNSName(append([]nsname.NSName(nil), ids...)...)
+			if err := refilt(f); err != nil {
+				r.V("C06", "refilter-error", "%v", err)
+				return
+			}
+			g.barrier()
+			if !check(fmt.Sprintf("round %d: Refilter(NSName(slice...))", round)) || !churn() || !check(fmt.Sprintf("round %d: parent events after the Refilter", round)) {
+				return
+			}
+		}
+		r.Add("caller-slice-cases", 1)
+		r.Key(id)
+	}}
+}
+
 func init() {
 	register("E7", func(tier string, seed uint64) []Case {
 		var cases []Case
@@ -421,6 +527,9 @@ func init() {
 		}
 		for i := 0; i < tierPick(tier, 24, 2000); i++ {
 			cases = append(cases, e7LateFilterCase(seed, i))
+		}
+		for i := 0; i < tierPick(tier, 20, 1000); i++ {
+			cases = append(cases, e7CallerSliceCase(seed, i))
 		}
 		return cases
 	})
